@@ -116,7 +116,12 @@ def volume(rep, prog):
 
 def area_normal(rep, prog):
     try:
-        nev = c02.face_normal_area(prog)
+        try:
+            nev = c02.face_normal_area(prog)
+        except c02.NormalGuard as g:
+            rep.violation("C12.area-normal", prog, g.fn, g.node, "face normal dropped under an absolute threshold", g.msg)
+            rep.ok("C12.area-normal", prog, g.fn, None, "(area formula not evaluated)")
+            return
         ev = S.SymEval(prog, prog.fn("cell::compute_volume"))
         code = c02.normal_substitution(ev, nev, "F")
         x = face_nodes_positions(ev, "F")
